@@ -322,7 +322,7 @@ def finish(ctx, aud, extra_cov=None, level="proof"):
     kf = known_findings(prop)
     seen_kf = set()
     reported = set()
-    for fl in ctx.failures:
+    for fl in sorted(ctx.failures, key=lambda f: len(json.dumps(f.get('input'), default=str))):
         hit = next((e for e in kf if matches_finding(e, fl)), None)
         if hit is not None:
             if hit["what"] not in seen_kf:
